@@ -417,10 +417,10 @@ func findRegion(x *Exec, fu *FuncUnit, from, to string) ([]ast.Stmt, error) {
 	from, to = normWS(from), normWS(to)
 	try := func(list []ast.Stmt) {
 		for i, s := range list {
-			if strings.HasPrefix(normWS(x.src(s)), from) {
+			if x.anchorMatches(s, from) {
 				for j := i; j < len(list); j++ {
-					if strings.HasPrefix(normWS(x.src(list[j])), to) {
-						found = append(found, list[i:j+1])
+					if x.anchorMatches(list[j], to) {
+						found = append(found, list[x.extendBack(list, i, j):j+1])
 						break
 					}
 				}
@@ -486,4 +486,86 @@ func verifyLemma(prog *Program, cs *ContractSet, uc *UnitContract, res *UnitResu
 	res.Errors = append(res.Errors, x.errs...)
 	res.SrcRange = "(pure lemma over contracts and spec functions)"
 	return res
+}
+
+// extendBack: a region is extended backwards over the statements that IMMEDIATELY precede it in the same statement list
+// and only introduce a local by a side-effect-free expression (`yearIdx := yrz - 1`) that the region uses. Those are real
+// statements executed in their real order; including them keeps a region provable after a "name this sub-expression"
+// clean-up that puts the new local in front of the anchored statement.
+func (x *Exec) extendBack(list []ast.Stmt, i, j int) int {
+	used := map[string]bool{}
+	for _, s := range list[i : j+1] {
+		ast.Inspect(s, func(n ast.Node) bool {
+			if id, ok := n.(*ast.Ident); ok {
+				used[id.Name] = true
+			}
+			return true
+		})
+	}
+	pure := func(e ast.Expr) bool {
+		ok := true
+		ast.Inspect(e, func(n ast.Node) bool {
+			switch c := n.(type) {
+			case *ast.CallExpr:
+				switch f := c.Fun.(type) {
+				case *ast.Ident:
+					switch f.Name {
+					case "float64", "int", "int64", "uint64", "len", "min", "max":
+					default:
+						ok = false
+					}
+				case *ast.SelectorExpr:
+					if id, isId := f.X.(*ast.Ident); !isId || id.Name != "math" {
+						ok = false
+					}
+				default:
+					ok = false
+				}
+			case *ast.UnaryExpr:
+				if c.Op == token.ARROW || c.Op == token.AND {
+					ok = false
+				}
+			case *ast.FuncLit:
+				ok = false
+			}
+			return ok
+		})
+		return ok
+	}
+	k := i
+	for k > 0 {
+		as, isAssign := list[k-1].(*ast.AssignStmt)
+		if !isAssign || as.Tok != token.DEFINE || len(as.Lhs) != len(as.Rhs) {
+			break
+		}
+		needed := false
+		allPure := true
+		for idx, l := range as.Lhs {
+			id, isId := l.(*ast.Ident)
+			if !isId {
+				allPure = false
+				break
+			}
+			if used[id.Name] {
+				needed = true
+			}
+			if !pure(as.Rhs[idx]) {
+				allPure = false
+			}
+		}
+		if !needed || !allPure {
+			break
+		}
+		ast.Inspect(as, func(n ast.Node) bool {
+			if id, ok := n.(*ast.Ident); ok {
+				used[id.Name] = true
+			}
+			return true
+		})
+		k--
+	}
+	if k < i {
+		x.abstract(fmt.Sprintf("region extended backwards over %d preceding definition(s) of locals it uses", i-k))
+	}
+	return k
 }
